@@ -30,4 +30,25 @@ MUTANTS = [
     dict(name='c03-double-definition-accepted', file=P, old="                if old != new:\n                    raise ParserError(", new="                if False:\n                    raise ParserError(", checks=['C03']),
     dict(name='c03-default-start-off-by-one', file=I, old='start = self.span[self.lags]', new='start = self.span[max(self.lags - 1, 0)]', checks=['C03', 'C04', 'C05']),
     dict(name='c03-default-end-off-by-one', file=I, old='end = self.span[-1 - self.leads]', new='end = self.span[-1 - max(self.leads - 1, 0)]', checks=['C03', 'C04', 'C05']),
+    # ---- C02 ----
+    dict(name='c02-tol-le', file=M, old='if np.all(np.abs(diff) < tol):', new='if np.all(np.abs(diff) <= tol):', checks=['C02']),
+    dict(name='c02-min-iter-le', file=M, old='if iteration < min_iter:', new='if iteration <= min_iter:', checks=['C02']),
+    dict(name='c02-range-short', file=M, old='for iteration in range(1, max_iter + 1):', new='for iteration in range(1, max(max_iter, 1)):', checks=['C02']),
+    dict(name='c02-all-to-any', file=M, old='if np.all(np.abs(diff) < tol):', new='if np.any(np.abs(diff) < tol):', checks=['C02']),
+    dict(name='c02-iterations-off-by-one-on-failure', file=M, old="        self.status[t] = status\n        self.iterations[t] = iteration\n", new="        self.status[t] = status\n        self.iterations[t] = iteration - (1 if status == 'F' else 0)\n", checks=['C02']),
+    dict(name='c02-offset-wrong-direction', file=M, old="self.__dict__['_' + name][t] = self.__dict__['_' + name][t + offset]", new="self.__dict__['_' + name][t] = self.__dict__['_' + name][t - offset]", checks=['C02']),
+    dict(name='c02-after-hook-every-pass', file=M, old="            if iteration < min_iter:\n                continue\n", new="            self.solve_t_after(t, errors=errors, catch_first_error=catch_first_error, iteration=iteration, **kwargs) if iteration < min_iter else None\n            if iteration < min_iter:\n                continue\n", checks=['C02']),
+    dict(name='c02-min-gt-max-checked-late', file=M, old="        # Error if `min_iter` exceeds `max_iter`\n        if min_iter > max_iter:\n            raise ValueError(\n                f'Value of `min_iter` ({min_iter}) '\n                f'cannot exceed value of `max_iter` ({max_iter})'\n            )\n\n        # Optionally copy", new="        # Optionally copy", checks=['C02']),
+    dict(name='c02-offset-upper-bound-check-removed', file=M, old="            if t_check + offset >= len(self.span):", new="            if False:", checks=['C02', 'C04']),
+    dict(name='c02-solve-period-off-by-one', file=I, old="        return self.solve_t(\n            t,\n            min_iter=min_iter,\n            max_iter=max_iter,\n            tol=tol,\n            offset=offset,\n            failures=failures,\n            errors=errors,\n            catch_first_error=catch_first_error,\n            **kwargs,\n        )\n\n    def solve_t(", new="        return self.solve_t(\n            t,\n            min_iter=min_iter,\n            max_iter=max_iter,\n            tol=tol,\n            failures=failures,\n            errors=errors,\n            catch_first_error=catch_first_error,\n            **kwargs,\n        )\n\n    def solve_t(", checks=['C02', 'C05']),
+    # ---- C06 ----
+    dict(name='c06-previous-nonfinite-continue-removed', file=M, old="            if np.any(~np.isfinite(previous_values)):\n                continue", new="            if False:\n                continue", checks=['C06']),
+    dict(name='c06-E-not-recorded-on-exception', file=M, old="                    if errors == 'raise':\n                        self.status[t] = SolutionStatus.ERROR.value\n                        self.iterations[t] = iteration\n\n                    raise SolutionError(", new="                    raise SolutionError(", checks=['C06']),
+    dict(name='c06-skip-falls-through', file=M, old="                    status = SolutionStatus.SKIPPED.value\n                    break", new="                    status = SolutionStatus.SKIPPED.value", checks=['C06']),
+    dict(name='c06-error-filter-wrong-policy', file=M, old="                if errors == 'raise' and catch_first_error:\n                    # Immediately raise", new="                if errors == 'raise':\n                    # Immediately raise", checks=['C06']),
+    dict(name='c06-ignore-boundary-moved', file=M, old="                elif errors == 'ignore':\n                    if iteration == max_iter:", new="                elif errors == 'ignore':\n                    if iteration >= max_iter - 1:", checks=['C06']),
+    dict(name='c06-chaining-dropped', file=M, old="                        f'in period with label: {self.span[t]} (index: {t})'\n                    ) from e\n\n            current_values", new="                        f'in period with label: {self.span[t]} (index: {t})'\n                    )\n\n            current_values", checks=['C06']),
+    dict(name='c06-replace-not-replacing', file=M, old="                        current_values[~np.isfinite(current_values)] = 0.0\n                        continue", new="                        continue", checks=['C06']),
+    dict(name='c06-preexisting-check-any-policy', file=M, old="        if errors == 'raise' and np.any(~np.isfinite(current_values)):", new="        if np.any(~np.isfinite(current_values)):", checks=['C06']),
+    dict(name='c06-solve-swallows-exception', file=I, old="            solved[i] = self.solve_t(\n                t,\n                min_iter=min_iter,", new="            solved[i] = self.solve_t(\n                t,\n                min_iter=min(min_iter, 1),", checks=['C05', 'C02']),
 ]
